@@ -408,7 +408,7 @@ func replayBatch(par int, jobs []string) string {
 }
 
 func c12(c *Ctx) {
-	c.Rule = "sequential scripts (wseq): random scripts of heartbeats, commands (7 command ids + 0x9003), responses of the 5 echoing types in any order, duplicates, unknown serials, unparsable bodies, 0x1003, timeouts, disconnect, executed step by step on a live server and compared token by token with the model; concurrent scenarios (wexp): 1..8 callers with timeouts 60-600 ms against a scripted terminal (answers delayed/late/twice/unknown/unparsable/never, 5-8 answers in one TCP segment, heartbeats and location reports in between, serial wrap at 65535, close/RST), the recorded history must be explained by a schedule of the model and pass the direct oracle; the server runs in child processes (a crash is an observation); a case is non-trivial when it contains at least one command written to the terminal; distinct = distinct request lines"
+	c.Rule = "sequential scripts (wseq): random scripts of heartbeats, commands (7 command ids + 0x9003), responses of the 5 echoing types in any order, duplicates, unknown serials, unparsable bodies, 0x1003, timeouts, disconnect, executed step by step on a live server and compared token by token with the model; concurrent scenarios (wexp): 1..8 callers with timeouts 60-600 ms, none, and 0 = the 3 s default, against a scripted terminal (answers delayed/late/twice/unknown/unparsable/never, 5-8 answers in one TCP segment, heartbeats and location reports in between, serial wrap at 65535, close/RST), the recorded history must be explained by a schedule of the model and pass the direct oracle; the server runs in child processes (a crash is an observation); a case is non-trivial when it contains at least one command written to the terminal; distinct = distinct request lines"
 	// ---- jobs
 	nseq := 300
 	if !c.Quick() {
@@ -439,12 +439,20 @@ func c12(c *Ctx) {
 		}
 	}
 	nwrap := 2
+	ndef := 4 // OverTimeDuration 0: these take 3 s each and run alongside the rest
 	if !c.Quick() {
 		nwrap = 12
 	}
 	for i := 0; i < nwrap; i++ {
 		seed := c.Rng.Int63n(90000000)
 		jobs = append(jobs, jobT{line: fmt.Sprintf("scn wrap %d", seed), kind: "wrap", seed: seed})
+	}
+	if !c.Quick() {
+		ndef = 30
+	}
+	for i := 0; i < ndef; i++ {
+		seed := c.Rng.Int63n(90000000)
+		jobs = append(jobs, jobT{line: fmt.Sprintf("scn default0 %d", seed), kind: "default0", seed: seed})
 	}
 	c.Rng.Shuffle(len(jobs), func(i, j int) { jobs[i], jobs[j] = jobs[j], jobs[i] })
 	// ---- batches, each in its own child process
@@ -513,7 +521,7 @@ func c12(c *Ctx) {
 				c.Violate(Violation{Signature: "C12/" + v.Sig, What: v.What, Input: input,
 					Observed: v.Observed + " | " + o.Desc + " | " + o.Req, Required: v.Required})
 			}
-			if strings.Contains(o.Req, "/") {
+			if strings.HasPrefix(o.Req, "wexp ") {
 				c.Case(o.Req, "exp ok", o.N > 0 && strings.Contains(o.Req, "F/W"))
 			}
 		}
